@@ -442,6 +442,10 @@ static void rt_history(vt::Rng& r) {
     }
   }
   ev_eof(rd);
+  // an empty raw block as the LAST item: zero-size reads with the cursor exactly at the end succeed in every form
+  ev_go(rd, data.size());
+  for (const char* k : {"readx", "read", "readv", "readxv"}) ev_read(rd, k, 0, 0, true);
+  for (const char* k : {"preadx", "pread", "preadv", "preadxv"}) ev_read(rd, k, data.size(), 0, false);
   // positional reads in random order with every accessor family (incl. 24/48-bit, sign-extending)
   for (int k = 0; k < 10 && data.size(); k++) {
     const RAcc& a = R[r.below(R.size())];
